@@ -50,6 +50,9 @@ impl Elem for f64 {
                                     1.0000000000000002e-13, 12345.678, 1.2345678901234567e31, 9.87654321e200, 1.7e308, f64::MAX];
             return EXT[((p + 1).max(0) as usize).min(9)];
         }
+        if p == 99 { return f64::NAN; }                      // the NaN probe
+        if ty == "f64xb" && p <= 0 { return f64::NEG_INFINITY; }          // infinities as explicit BOUNDS
+        if ty == "f64xb" && p >= n - 1 { return f64::INFINITY; }
         if ty == "f64inf" && p < 0 { return f64::NEG_INFINITY; }
         if ty == "f64inf" && p >= n { return f64::INFINITY; }
         let x = (p - 2) as f64 * 0.25;
@@ -121,8 +124,13 @@ fn hash_of<T: Hash>(x: &T) -> u64 {
     h.finish()
 }
 
-/// operations available for every element type
-fn generic<T: Elem + std::panic::RefUnwindSafe>(case: &Value, ty: &str) -> Option<Value> {
+/// operations available for every element type.  Instantiated per CONCRETE element type (not through a
+/// generic parameter): method-call syntax on a concrete `Interval<f64>` is what a user writes, and an inherent
+/// method added for one element type takes precedence there over the trait method generic code would reach.
+macro_rules! generic_for {
+    ($fname:ident, $T:ty) => {
+        fn $fname(case: &Value, ty: &str) -> Option<Value> {
+            #[allow(dead_code)] type T = $T;
     let op = case["op"].as_str().unwrap();
     let n = case["n"].as_i64().unwrap_or(5);
     let mut ev = case.clone();
@@ -198,7 +206,15 @@ fn generic<T: Elem + std::panic::RefUnwindSafe>(case: &Value, ty: &str) -> Optio
         _ => return None,
     }
     Some(ev)
+        }
+    };
 }
+generic_for!(generic_i32, i32);
+generic_for!(generic_i8, i8);
+generic_for!(generic_u8, u8);
+generic_for!(generic_f64, f64);
+generic_for!(generic_char, char);
+generic_for!(generic_string, String);
 
 /// the part of `iv.observe` every type supports
 fn observe_common<T: Elem>(a: &Interval<T>, n: i64, ty: &str) -> Value {
@@ -489,12 +505,12 @@ pub fn run(case: &Value) -> Vec<Value> {
         }
         _ => {
             let r = match ty {
-                "i32" => generic::<i32>(case, ty),
-                "i8" => generic::<i8>(case, ty),
-                "u8" => generic::<u8>(case, ty),
-                "f64" | "f64nz" | "f64pz" | "f64inf" | "f64ext" => generic::<f64>(case, ty),
-                "char" => generic::<char>(case, ty),
-                "String" | "Stringlong" => generic::<String>(case, ty),
+                "i32" => generic_i32(case, ty),
+                "i8" => generic_i8(case, ty),
+                "u8" => generic_u8(case, ty),
+                "f64" | "f64nz" | "f64pz" | "f64inf" | "f64ext" | "f64xb" => generic_f64(case, ty),
+                "char" => generic_char(case, ty),
+                "String" | "Stringlong" => generic_string(case, ty),
                 t => panic!("type {}", t),
             };
             r.unwrap_or_else(|| json!({"op": "harness.unknown", "case": case}))
